@@ -21,11 +21,14 @@ NAME_POOL = ['class', 'int', 'Default', 'myField', 'my_value', 'XMLData', 'x', '
              'struct', 'switch', 'case', 'break', 'continue', 'return', 'static', 'const', 'char', 'enum', 'extern',
              'goto', 'register', 'sizeof', 'typedef', 'auto', 'do', 'this', 'template', 'namespace', 'private', 'public',
              'virtual', 'operator', 'delete', 'friend', 'inline', 'throw', 'try', 'catch', 'using', 'not', 'or', 'xor',
-             'bitand', 'compl', 'wchar_t', 'asm', 'mutable', 'explicit', 'false', 'protected', 'typeid', 'and_eq']
+             'bitand', 'compl', 'wchar_t', 'asm', 'mutable', 'explicit', 'false', 'protected', 'typeid', 'and_eq',
+             'restrict', 'nullptr', 'constexpr', 'alignas', 'alignof', 'noexcept', 'decltype', 'export', 'thread_local',
+             'static_assert', 'char16_t', 'char32_t', 'Restrict', 'NullPtr']
 MSG_NAMES = ['Req', 'Reply', 'Item', 'Node', 'XMLDoc', 'snake_msg', 'Inner', 'Deep', 'A', 'Bb', 'HTTPHeader', 'kv_pair', 'M2M']
 ENUM_NAMES = ['Color', 'Kind', 'State', 'E2', 'mode_t_', 'HTTPCode']
 SVC_NAMES = ['Store', 'Echo', 'RPCService', 'svc_lower']
-METHOD_NAMES = ['Put', 'Get', 'List', 'Delete', 'Alpha', 'beta', 'GetX', 'Zeta', 'aa', 'Aa', 'StreamAll', 'do_it', 'B', 'A']
+METHOD_NAMES = ['Put', 'Get', 'List', 'Delete', 'Alpha', 'beta', 'GetX', 'Zeta', 'aa', 'Ab', 'StreamAll', 'do_it', 'B', 'A', 'New', 'Int', 'default', 'Nullptr']
+# (method names that differ only in case map to one C identifier: outside what the naming scheme can represent, not generated)
 PKGS = ['t', 'a.b', 'Foo.bar_baz', '', 'x1']
 
 
@@ -241,10 +244,19 @@ def rand_pfile(rng, rich=True):
                     f.dflt = ('V', rng.choice(e.values)[1] & 0xffffffff)
                 first = e.values[0][1] & 0xffffffff
                 if syntax == 2 and f.label != L_REP and not f.oneof and f.dflt is None and first != 0:
-                    f.init = first
+                    if P.eff_init(mi):
+                        f.init = first
+                    else:
+                        # without init helper the runtime's generic initialiser knows only EXPLICIT defaults (finding F17,
+                        # kept as a fixed schema): declare the default
+                        f.dflt = ('V', first)
+            if is_nonfinite(f):
+                # inf / nan defaults are emitted verbatim and do not compile (finding F12b, kept as a fixed schema)
+                f.dflt = ('V', 0x3fc00000 if f.type == T_FLOAT else 0x3ff8000000000000)
             o = {}
             if rich and f.type == T_STRING and syntax == 2 and f.dflt is None and rng.random() < 0.15:
                 o['sab'] = True
+                f.type = T_BYTES          # what the runtime sees; the .proto says `string ... [string_as_bytes = true]`
             if rich and rng.random() < 0.1:
                 o['deprecated'] = True
             if o:
@@ -361,16 +373,15 @@ def proto_texts(P):
                 elif f.type == T_ENUM:
                     t = P.proto_ref(P.enum_full(P.field_enum[(mi, k)]))
                 else:
-                    t = PROTO_TYPES[f.type]
+                    t = 'string' if P.fopt.get((mi, k), {}).get('sab') else PROTO_TYPES[f.type]
                 lab = ''
                 if not in_oneof:
                     lab = {L_REQ: 'required ', L_REP: 'repeated ', L_OPT: 'optional ', L_NONE: ''}[f.label]
                 opts = []
-                if f.label == L_REP and f.type in PACKABLE:
-                    # proto3 without the option means packed; proto2 without it means not packed
-                    dflt_packed = sch.syntax == 3
-                    if f.packed != dflt_packed or hash((mi, k)) % 3 == 0:
-                        opts.append('packed = %s' % ('true' if f.packed else 'false'))
+                ep = explicit_packed(P, mi, k)
+                if ep is not None:
+                    # (proto3 without the option means packed; proto2 without it means not packed)
+                    opts.append('packed = %s' % ('true' if ep else 'false'))
                 if f.dflt is not None and f.dflt[0] != 'E':
                     opts.append('default = %s' % default_lit(P, mi, k, f))
                 fo_ = P.fopt.get((mi, k), {})
@@ -410,6 +421,8 @@ def proto_texts(P):
 
 
 def explicit_packed(P, mi, k):
+    if getattr(P, 'explicit_packed', None) is not None and (mi, k) in P.explicit_packed:
+        return P.explicit_packed[(mi, k)]
     f = P.sch.msgs[mi].fields[k]
     if not (f.label == L_REP and f.type in PACKABLE):
         return None
@@ -431,6 +444,78 @@ def dflt_tok(f):
     return k + bytes(v).hex()
 
 
+def dflt_tok_desc(f):
+    """the default as harness op `desc` prints it from the emitted descriptor"""
+    if f.dflt is None:
+        return '-'
+    if f.dflt[0] == 'E':
+        return 'E'
+    return dflt_tok(f)
+
+
+def is_nonfinite(f):
+    if f.dflt is None or f.dflt[0] != 'V':
+        return False
+    v = f.dflt[1]
+    if f.type == T_FLOAT:
+        return (v >> 23) & 0xff == 0xff
+    if f.type == T_DOUBLE:
+        return (v >> 52) & 0x7ff == 0x7ff
+    return False
+
+
+def finding_pfile(fid):
+    """the fixed schema that identifies an open generator finding (known_findings.json)"""
+    P = PFile()
+    if fid == 'F17':
+        # proto2 enum field without default whose first declared value is not 0, in a message without init helper
+        flds = [Field('e', 1, L_OPT, T_ENUM), Field('x', 2, L_OPT, T_INT32)]
+        flds[0].init = 7
+        P.sch = Schema([Msg('NoInit', flds, initmode=1)], 2)
+        P.enums = [PEnumDef('Color', [('RED', 7), ('GREEN', 2)])]
+        P.field_enum = {(0, 0): 0}
+        P.msg_opts = {0: {'gen_init_helpers': False}}
+    elif fid == 'F12b':
+        # float / double defaults inf and nan
+        flds = [Field('a', 1, L_OPT, T_FLOAT, dflt=('V', 0x7f800000)), Field('b', 2, L_OPT, T_DOUBLE, dflt=('V', 0xfff0000000000000)),
+                Field('c', 3, L_OPT, T_DOUBLE, dflt=('V', 0x7ff8000000000000))]
+        P.sch = Schema([Msg('NonFinite', flds)], 2)
+        P.enums = [PEnumDef('Color', [('RED', 0)])]
+    else:
+        raise KeyError(fid)
+    P.parent = {0: None}
+    P.infile = {0: 0}
+    P.decl = {0: list(range(len(P.sch.msgs[0].fields)))}
+    P.pkg = ['t', 'dep']
+    return P
+
+
+def corpus_pfiles():
+    """fixed file sets run before the random ones: the packed-option matrix and implicit-presence fields of every type"""
+    out = []
+    for syntax in (2, 3):
+        lab = L_OPT if syntax == 2 else L_NONE
+        P = PFile()
+        rep = []
+        n = 1
+        for t in (T_INT32, T_SINT64, T_BOOL, T_ENUM, T_FIXED32, T_DOUBLE):
+            for k in range(3):          # [packed = false], [packed = true], option not written
+                rep.append(Field('r%d' % n, n, L_REP, t, F_PACKED if (k == 1 or (k == 2 and syntax == 3)) else 0))
+                n += 1
+        sing = [Field('s%d' % (100 + t), 100 + t, lab, t, dflt=('E', None) if (t == T_STRING and syntax == 3) else None) for t in range(16)]
+        P.sch = Schema([Msg('Packed', rep, syntax=syntax), Msg('Singular', sing, syntax=syntax)], syntax)
+        P.enums = [PEnumDef('Color', [('C_ZERO', 0), ('C_NEG', -5), ('C_BIG', 2147483647), ('C_MIN', -2147483648), ('C_ONE', 1)])]
+        P.field_enum = {(0, i): 0 for i, f in enumerate(rep) if f.type == T_ENUM}
+        P.field_enum.update({(1, i): 0 for i, f in enumerate(sing) if f.type == T_ENUM})
+        P.parent = {0: None, 1: None}
+        P.infile = {0: 0, 1: 0}
+        P.decl = {0: list(range(len(rep))), 1: list(reversed(range(len(sing))))}
+        P.explicit_packed = {(0, i): (None if i % 3 == 2 else (i % 3 == 1)) for i in range(len(rep))}
+        P.services = [('Zoo', [('Zebra', 0, 1), ('Ant', 1, 0), ('Mole', 0, 0), ('Bee', 1, 1)])]
+        out.append(('matrix%d' % syntax, P))
+    return out
+
+
 def gen_ops(P):
     sch = P.sch
     L = []
@@ -447,7 +532,7 @@ def gen_ops(P):
             if f.oneof:
                 pl = 1 if sch.syntax == 2 else 3
             fo_ = P.fopt.get((mi, k), {})
-            toks += [f.name, str(f.id), str(pl), str(f.type), tok_opt(explicit_packed(P, mi, k)),
+            toks += [f.name, str(f.id), str(pl), str(T_STRING if fo_.get('sab') else f.type), tok_opt(explicit_packed(P, mi, k)),
                      str(f.group) if f.oneof else '-1', P.oneof_names[(mi, f.group)] if f.oneof else '-',
                      str(f.sub) if f.type == T_MESSAGE else '-1', dflt_tok(f), '1' if fo_.get('sab') else '0', '1' if fo_.get('deprecated') else '0']
         L.append(' '.join(toks))
